@@ -20,6 +20,8 @@ pub struct ModCfg {
     pub full: bool,
     /// first marker value
     pub marker_base: u32,
+    /// prefix of all generated names (to make two modules disjoint)
+    pub prefix: String,
 }
 
 impl Default for ModCfg {
@@ -31,6 +33,7 @@ impl Default for ModCfg {
             cycles: true,
             full: true,
             marker_base: 1,
+            prefix: String::new(),
         }
     }
 }
@@ -41,7 +44,13 @@ pub struct Gen<'r> {
     pub next_marker: u32,
 }
 
+thread_local! {
+    static NAME_PREFIX: std::cell::RefCell<String> = const { std::cell::RefCell::new(String::new()) };
+}
+
 fn pick_names(rng: &mut Rng, prefix: &str, universe: usize, n: usize) -> Vec<String> {
+    let global = NAME_PREFIX.with(|p| p.borrow().clone());
+    let prefix = &format!("{global}{prefix}");
     let mut idx: Vec<usize> = (0..universe).collect();
     rng.shuffle(&mut idx);
     idx.truncate(n.min(universe));
@@ -100,6 +109,7 @@ impl<'r> Gen<'r> {
     /// a fully consistent module (all references resolve, check() reports nothing)
     pub fn module(&mut self, module_name: &str) -> Module {
         let mut m = Module::new(module_name.to_string(), String::new());
+        NAME_PREFIX.with(|p| *p.borrow_mut() = self.cfg.prefix.clone());
         let sz = self.cfg.size;
         let uni = self.cfg.universe;
         let n = |g: &mut Gen, base: usize| -> usize { g.rng.urange(base.min(1), base.max(1)) };
